@@ -128,7 +128,8 @@ def random_instances(n: int, seed: int) -> tuple[int, list[dict]]:
             work[f'layer{li}'] = fs
         colocate = rng.random() < 0.5
         msg = props_only(work, groups, W, colocate)
-        if not msg and kind in ('cubes', 'int', 'ties') and 1 <= L <= 9:
+        if not msg and kind in ('cubes', 'int', 'ties') and 1 <= L <= 9 \
+                and sum(len(fs) for fs in work.values()) <= 14:
             # the greedy rule itself, with exact arithmetic and any
             # tie-breaking (never "almost least loaded")
             from harness import assign
